@@ -10,6 +10,9 @@ let rows_string (rows : bool list list) = String.concat "/" (List.map bits_strin
 let rows_of_string s : bool list list =
   List.map bools_of_string (split_on '/' s)
 
+(* large candidates are printed as their MD5 (the check hashes the implementation's rows) *)
+let compact r = if String.length r > 4000 then "md5:" ^ Digest.to_hex (Digest.string r) else r
+
 (* all 8 candidates of render in one line: "<header of describe> <rows0>|<rows1>|...|<rows7>";
    the check accepts the implementation's line if it is the header plus one of the candidates *)
 let show_all (bcs : barcode list) =
@@ -19,7 +22,7 @@ let show_all (bcs : barcode list) =
     let full = show_barcode bc in
     let cut = String.rindex full ' ' in
     String.sub full 0 cut ^ " " ^
-    String.concat "|" (List.map (fun (b : barcode) -> rows_string b.bc_rows) bcs)
+    String.concat "|" (List.map (fun (b : barcode) -> compact (rows_string b.bc_rows)) bcs)
 
 let () = register "qr" (fun args ->
   match args with
@@ -143,7 +146,7 @@ let () = register "qrrender" (fun args ->
      | Some vi ->
        let d = zlist_of_hex data in
        let one mask = match render d vi (zi mask) with
-         | Ok m -> rows_string (rows_of m)
+         | Ok m -> compact (rows_string (rows_of m))
          | Err -> "ERR" | Panic -> "PANIC" | OutOfFuel -> "OUTOFFUEL" in
        String.concat "|" (List.init 8 one))
   | _ -> "BAD")
@@ -151,21 +154,44 @@ let () = register "qrrender" (fun args ->
 (* ---- specification oracle: the reference reader applied to a module matrix ---- *)
 let level_name = function LvL -> "L" | LvM -> "M" | LvQ -> "Q" | LvH -> "H"
 
+(* smallest version the specification allows for (level, mode, content): C13 *)
+let min_version level mode content =
+  match level_of_Z (z_of_string level) with
+  | None -> "-"
+  | Some l ->
+    let c = zlist_of_hex content in
+    let m = spec_mode_used (z_of_string mode) c in
+    (match spec_min_version m l (zi (List.length c)) with
+     | Some v -> string_of_int (iz v)
+     | None -> "-")
+
+(* qrdec <rows> [<level> <mode> <content hex>] *)
 let () = register "qrdec" (fun args ->
   match args with
-  | [rows] ->
+  | rows :: rest ->
     let rows = rows_of_string rows in
+    let extra = (match rest with
+      | [level; mode; content] -> " minv=" ^ min_version level mode content
+      | _ -> "") in
     (match qr_read_rows rows with
      | None -> "NONE"
      | Some r ->
-       Printf.sprintf "OK v=%d l=%s m=%d valid=%d pad=%d rem=%d blocks=%d ecc=%s %s"
+       Printf.sprintf "OK v=%d l=%s m=%d valid=%d pad=%d rem=%d blocks=%d ecc=%s%s %s"
          (iz r.rd_version) (level_name r.rd_level) (iz r.rd_mask)
          (if qr_valid_rows rows then 1 else 0)
          (if r.rd_padding_ok then 1 else 0) (if r.rd_remainder_ok then 1 else 0)
          (List.length r.rd_blocks)
          (String.concat "," (List.sort_uniq compare
             (List.map (fun (_, e) -> string_of_int (List.length e)) r.rd_blocks)))
+         extra
          (hex_of_zlist r.rd_content))
+  | _ -> "BAD")
+
+(* qrrep <level> <mode> <content hex> : representable according to the specification (C10) *)
+let () = register "qrrep" (fun args ->
+  match args with
+  | [level; mode; content] ->
+    if qr_representable (zlist_of_hex content) (z_of_string level) (z_of_string mode) then "1" else "0"
   | _ -> "BAD")
 
 (* format information of a function-module matrix, read by the specification's reader *)
